@@ -73,7 +73,7 @@ def run(tier):
                            # trace ring of 2 records: the third step drops the start record
                            (c01.gen, tiny, variants((500, 2, 250)), "trace", None),
                            # very deep charts: one step writes several hundred step records
-                           (gen_deep, deep_parents((8, 20, 30) if tier == "quick" else (8, 16, 20, 24, 30, 36)), variants(), "trace", None),
+                           (gen_deep, deep_parents((8, 20, 30) if tier == "quick" else (8, 12, 16, 20, 24, 28, 31)), variants(), "trace", None),
                            (instrcheck.gen_act, [f for f in tiny if len(f) <= 3], variants((500, 2, 250))[1:], "trace", None)])
     from mc.props import c20ao
     c20ao.run_into(res, tier)
